@@ -34,7 +34,7 @@ def _nontrivial(m):
 
 
 def run(ctx):
-    sf = env.load_selfies()
+    sf = env.varied(env.load_selfies(), ctx)
     hooks.attach_m1()
     hooks.attach_m1_encoder()
     hooks.attach_m2()
